@@ -63,7 +63,7 @@ class Lock(object):
 
 # ---------------------------------------------------------------- build
 
-GENERATORS = ['regexes.py', 'tables.py', 'consts.py', 'maps.py', 'c16.py']
+GENERATORS = ['regexes.py', 'tables.py', 'consts.py', 'maps.py', 'c16.py', 'effects.py']
 
 
 def all_generators():
